@@ -278,6 +278,24 @@ func c13ServerStreams(reg *gen.Registry, url string, quick bool) []c13Stream {
 			ch.Open(false, 1000)
 		})
 	}
+	// a bare header of every message type declaring sizes around the header length (also below it), as first frame
+	// and after a correct hello; a refused frame ends the connection, so every pair gets a connection of its own
+	for _, typ := range []string{"HELF", "ACKF", "ERRF", "MSGF", "OPNF", "CLOF", "XXXX"} {
+		for _, size := range []uint32{0, 1, 4, 7, 8, 9, 12, 15, 16} {
+			typ, size := typ, size
+			add(fmt.Sprintf("first-frame-header-%s-size-%d", typ, size), func(conn net.Conn, r *rand.Rand, note func(string)) {
+				conn.Write(c13Hdr(typ, size))
+				conn.Write(make([]byte, 16))
+			})
+			add(fmt.Sprintf("hello-then-header-%s-size-%d", typ, size), func(conn net.Conn, r *rand.Rand, note func(string)) {
+				conn.Write(c13Hello(65535, 65535, 0, 0, url))
+				conn.SetReadDeadline(time.Now().Add(time.Second))
+				refpeer.ReadFrame(conn, 0)
+				conn.Write(c13Hdr(typ, size))
+				conn.Write(make([]byte, 16))
+			})
+		}
+	}
 	add("hello-with-url-length-2^31-1", func(conn net.Conn, r *rand.Rand, note func(string)) {
 		b := c13Hello(65535, 65535, 0, 0, "x")
 		binary.LittleEndian.PutUint32(b[28:], 0x7fffffff)
@@ -524,6 +542,16 @@ func c13ClientStreams(reg *gen.Registry, quick bool) []c13Stream {
 			conn.Write(refpeer.MakeFrame(typ, body))
 		})
 	}
+	for _, typ := range []string{"ACKF", "ERRF", "MSGF", "OPNF"} {
+		for _, size := range []uint32{0, 1, 4, 7, 8, 9, 12, 15, 16} {
+			typ, size := typ, size
+			add(fmt.Sprintf("answer-to-hello-is-header-%s-size-%d", typ, size), func(conn net.Conn, r *rand.Rand, note func(string)) {
+				readHello(conn)
+				conn.Write(c13Hdr(typ, size))
+				conn.Write(make([]byte, 16))
+			})
+		}
+	}
 	// a correct handshake and open, then the server pushes things
 	opened := func(conn net.Conn) *refpeer.Channel {
 		ch, _, err := refpeer.Accept(conn, refpeer.ServerOpts{})
@@ -540,6 +568,18 @@ func c13ClientStreams(reg *gen.Registry, quick bool) []c13Stream {
 		}
 		conn.SetReadDeadline(time.Time{})
 		return ch
+	}
+	for _, typ := range []string{"ERRF", "MSGF"} {
+		for _, size := range []uint32{0, 1, 4, 7, 8, 9, 12, 15, 16} {
+			typ, size := typ, size
+			add(fmt.Sprintf("header-%s-size-%d-to-the-open-client", typ, size), func(conn net.Conn, r *rand.Rand, note func(string)) {
+				if ch := opened(conn); ch == nil {
+					return
+				}
+				conn.Write(c13Hdr(typ, size))
+				conn.Write(make([]byte, 16))
+			})
+		}
 	}
 	add("open-answered-with-garbage", func(conn net.Conn, r *rand.Rand, note func(string)) {
 		ch, _, err := refpeer.Accept(conn, refpeer.ServerOpts{})
@@ -849,7 +889,7 @@ func init() {
 	fw.Register("C13", fw.Spec{
 		Plan: func(tier string) fw.Plan {
 			p := fw.Plan{Batches: 8, TimeoutS: 900, MinNontrivial: 80, Level: "exploration",
-				Rule:        "hostile byte streams from a raw socket / the independent peer to a bare gopcua channel living in a child process (server-kind: accepted connections; client-kind: dialled connections whose dispatcher receives), negotiated limits 8192 bytes x 16 chunks x 64 kB: malformed and extreme HEL/ACK (sizes 0..2^32-1, buffers 0,1,7,8,2^32-1), wrong first frames, OPN junk (random, huge/negative lengths, unknown policy, garbage and ECDSA certificates, missing sequence header), chunks with wrong channel/token ids, 8-24 byte chunks, garbage bodies under every chunk type, floods of intermediate chunks over thousands of request ids and over one id, 400 overruns of one request id followed by such a flood, every registered response type sent to a server and every request type (incl. OpenSecureChannelRequest) sent to a client; oracle: the child does not die, Receive returns after the peer closed (8000 heartbeats), bytes buffered for incomplete messages (verif accessor) <= 8 x MaxChunkCount x ReceiveBufSize, no single Receive allocates more than 512 MiB; thorough repeats the streams with 40 seeds; distinct = streams",
+				Rule:        "hostile byte streams from a raw socket / the independent peer to a bare gopcua channel living in a child process (server-kind: accepted connections; client-kind: dialled connections whose dispatcher receives), negotiated limits 8192 bytes x 16 chunks x 64 kB: malformed and extreme HEL/ACK (sizes 0..2^32-1, buffers 0,1,7,8,2^32-1), wrong first frames, bare headers of every message type declaring sizes 0-16 (first frame, after the hello, as answer to the hello, on an open channel), OPN junk (random, huge/negative lengths, unknown policy, garbage and ECDSA certificates, missing sequence header), chunks with wrong channel/token ids, 8-24 byte chunks, garbage bodies under every chunk type, floods of intermediate chunks over thousands of request ids and over one id, 400 overruns of one request id followed by such a flood, every registered response type sent to a server and every request type (incl. OpenSecureChannelRequest) sent to a client; oracle: the child does not die, Receive returns after the peer closed (8000 heartbeats), bytes buffered for incomplete messages (verif accessor) <= 8 x MaxChunkCount x ReceiveBufSize, no single Receive allocates more than 512 MiB; thorough repeats the streams with 40 seeds; distinct = streams",
 				Assumptions: []string{"policy None for the post-open streams (hostile chunks under Sign/SignAndEncrypt are C09's subject)"}}
 			if tier == "thorough" {
 				p.Batches, p.TimeoutS, p.MinNontrivial = 16, 3400, 80
